@@ -49,6 +49,8 @@ def run_case(c):
             cd.set_window({"time_min": float(w["tmin"]) + toff, "time_max": float(w["tmax"]) + toff,
                            "lat_min": float(w["latmin"]), "lat_max": float(w["latmax"]),
                            "lon_min": float(w["lonmin"]), "lon_max": float(w["lonmax"])})
+        elif s["op"] == "set_window_current":
+            cd.set_window(cd.window())
         else:
             cd.set_global_window()
         events.append(s)
@@ -60,7 +62,7 @@ def run_case(c):
 
 
 def _nontrivial(rec):
-    return any(s["op"] == "set_window" for s in rec["steps"])
+    return any(s["op"] in ("set_window", "set_window_current") for s in rec["steps"])
 
 
 def main(ctx):
